@@ -99,7 +99,10 @@ func buildC14(tier string, seed int64) *Family {
 	}
 	// name functions
 	fns := []string{"name()", "local-name()", "namespace-uri()", "name(*)", "local-name(*)", "namespace-uri(*)", "name(@*)", "local-name(@*)", "namespace-uri(@*)",
-		"name(//a)", "local-name(//b)", "namespace-uri(//a)", "name(a)", "name(..)", "local-name(.)", "namespace-uri(@a)", "name(p:a)", "local-name(//p:a)"}
+		"name(//a)", "local-name(//b)", "namespace-uri(//a)", "name(a)", "name(..)", "local-name(.)", "namespace-uri(@a)", "name(p:a)", "local-name(//p:a)",
+		// an argument with a predicate, an absolute or a following:: argument leaves the context node of what follows alone
+		"concat(name(*[2]), '|', name())", "concat(local-name(*[@a]), '|', local-name())", "concat(name(/*), '|', name())", "concat(namespace-uri(*[1]), '|', namespace-uri())",
+		"concat(name(following::*), '|', local-name())", "name(*[2])", "local-name(*[@a])", "namespace-uri(*[last()])", "name(following::*)", "name(../*)"}
 	for _, f := range fns {
 		for _, nv := range navs {
 			mp := "none"
@@ -111,7 +114,7 @@ func buildC14(tier string, seed int64) *Family {
 	}
 	// name functions evaluated once per candidate inside a predicate
 	for _, x := range []string{"//*[name(..) = 'a']", "//*[local-name(*) = 'a']", "//*[namespace-uri(*) = 'u1']", "//*[name(@*) = 'p:a']", "//*[namespace-uri(..) != '']",
-		"//*[local-name(following-sibling::*) = 'b']", "//*[name() = name(..)]"} {
+		"//*[local-name(following-sibling::*) = 'b']", "//*[name() = name(..)]", "//*[name(*[1]) = name()]", "//*[local-name(*[@a]) = 'a']", "//*[name(*[last()]) = name(*)]"} {
 		for _, nv := range navs {
 			insts = append(insts, mk("H_nodeset", x, "none", nv))
 		}
